@@ -18,7 +18,7 @@ MC = {"quick": [("MC_C17", "MC_C17.cfg", 8)], "thorough": [("MC_C17", "MC_C17.cf
 TRACE = ("Trace_C17", "Trace_C17.cfg")
 # the repository\'s own tests, recorded by harness/harvest_plugin.py, judged by the same trace specification
 ALSO = {"quick": [], "thorough": ["harness.props.hv17"]}
-REQUIRED = ["Format", "SaveOpen", "period-seconds", "period-minutes", "period-hours", "period-days", "negative-offset",
+REQUIRED = ["Format", "SaveOpen", "scalar-time", "period-seconds", "period-minutes", "period-hours", "period-days", "negative-offset",
             "fractional-offset", "single-digit-hour-offset", "zero-offset", "utc-date-differs", "style-iso", "style-isoT",
             "style-short", "style-loose", "style-zulu", "style-naive",
             "cf1d", "cf2d", "shoc_simple", "shoc_standard", "arakawa", "ugrid"]
@@ -95,7 +95,11 @@ def cases(tier: str, seed: int) -> list[dict]:
             period = rng.choice(["days", "hours", "minutes", "seconds"])
             date = rng.choice(DATES); tm = rng.choice(TIMES)
             style = rng.choice(styles_for(0, off))
-            worlds.append((w, {"a": "SaveOpen", "period": period, "civil": list(date) + list(tm), "sec": 0, "off": off, "style": style}))
+            worlds.append((w, {"a": "SaveOpen", "period": period, "civil": list(date) + list(tm), "sec": 0, "off": off, "style": style,
+                               "onestep": -1}))
+            if rep % 2 == 0:
+                worlds.append((w, {"a": "SaveOpen", "period": period, "civil": list(date) + list(tm), "sec": 0, "off": off,
+                                   "style": style, "onestep": rng.randrange(2)}))
     for w, e in worlds:
         out.append({"src": "gen", "world": w, "events": [e]})
     return out
@@ -131,9 +135,13 @@ def execute(case: dict) -> dict:
     tdim = w["extras"][0]
     tdim["coord"] = dict(tdim["coord"], encoding={"units": units, "calendar": "proleptic_gregorian"})
     ds = W.build(w)
+    e.setdefault("onestep", -1)
+    if e["onestep"] >= 0:
+        # one time step selected first: the time coordinate becomes a scalar (dimensionless) coordinate
+        ds = ds.isel({tdim["name"]: e["onestep"]})
     conv = W.bind(w, ds)
     tname = tdim["coord"]["name"]
-    intimes = [int(v) for v in (ds[tname].values.astype("datetime64[m]").astype("int64")).tolist()]
+    intimes = [int(v) for v in numpy.atleast_1d(ds[tname].values.astype("datetime64[m]").astype("int64")).tolist()]
     rec = {"tid": case["tid"], "src": case["src"], "w": CD.tlc_world(w, ds), "events": []}
     e["input"] = units
     e["intimes"] = intimes
@@ -153,7 +161,7 @@ def execute(case: dict) -> dict:
         c2, cname = clipdrv.bind_like(w, r)
         specs = {v["name"]: v for v in w["vars"]}
         return {"units": [ord(ch) for ch in raw], "fillattrs": fills,
-                "times": [int(v) for v in (r[tname].values.astype("datetime64[m]").astype("int64")).tolist()],
+                "times": [int(v) for v in numpy.atleast_1d(r[tname].values.astype("datetime64[m]").astype("int64")).tolist()],
                 "conv": cname, "polys": [polygon_vertices(p_) for p_ in c2.polygons],
                 "vars": [CD.proj_array(n, r[n]) for n in r.data_vars if n in specs]}
     e["obs"] = outcome(run)
